@@ -44,7 +44,10 @@ pub fn observe(rest: &str) -> String {
     let cat = concat_by_id(&chunks);
     match catch(move || PwbV2Packet::try_from(chunks)) {
         None => "panic".to_string(),
-        Some(Ok(_)) | Some(Err(RE::BadPayload(_))) => format!("concat {}", hex(&cat)),
+        // success and "the reassembled payload does not decode" are different outcomes: the model decodes the
+        // concatenation with the C05 model and must agree on which one it is
+        Some(Ok(_)) => format!("concat ok {}", hex(&cat)),
+        Some(Err(RE::BadPayload(_))) => format!("concat payload-err {}", hex(&cat)),
         Some(Err(_)) => "reasm-err".to_string(),
     }
 }
@@ -113,6 +116,10 @@ pub fn relation(rest: &str) -> String {
         Some(Ok(p)) => {
             if reference.starts_with("ok ") && reference != format!("ok {:?}", p) {
                 return "fails packet-differs-from-direct-decode".to_string();
+            }
+            // a set whose id-ordered concatenation decodes must not fail at the payload stage
+            if reference.starts_with("err payload") {
+                return "fails payload-error-although-direct-decode-succeeds".to_string();
             }
         }
         Some(Err(e)) => {
